@@ -416,7 +416,9 @@ func (ss *Package) messageProperties(parent RootSchema, src protoreflect.Message
 				nameInParent: "[]",
 			}
 
-			childExt := protoFieldExtensions{}
+			childExt := protoFieldExtensions{
+				list: ext.list,
+			}
 
 			repeatedValidate := ext.validate.GetRepeated()
 			if repeatedValidate != nil {
